@@ -2,7 +2,7 @@
     function the correspondence evaluates) and the non-vacuity examples. *)
 From Coq Require Import List NArith Bool Arith Lia Permutation SetoidList Relations.
 From SK Require Import lib.LGraph lib.Mono lib.Reach lib.C01_GraphLemmas model.C06_Model lib.C06_Spec
-  proof.C06_All proof.C06_Comp proof.C06_Comps proof.C06_CompSem.
+  proof.C06_All proof.C06_Comp proof.C06_Comps proof.C06_CompSem proof.C06_CompNoDup.
 Import ListNotations.
 
 Section Oracle.
@@ -15,6 +15,7 @@ Theorem comp_spec (strict : bool) (H P : graph) :
   let R := find enum (Cfg 1 0 T strict false) H P in
   let hcc := length (comps H) in
   let pcc := length (comps P) in
+  NoDupA (@Permutation (N * N)) R /\
   if (0 <? pcc) && (pcc <? hcc) && strict then R = []
   else if hcc <? pcc then
     (forall m, In m R -> is_mono H P m) /\
@@ -24,8 +25,9 @@ Theorem comp_spec (strict : bool) (H P : graph) :
     (forall m, is_mono H P m -> separating H P m -> exists m', In m' R /\ Permutation m m').
 Proof.
   intros HwfH HwfP Hor. exists (comp_bound enum strict H P). intros T HT. cbv zeta.
-  rewrite (find_comp_unlimited enum T strict H P HT).
-  exact (comp_unl_spec enum H P HwfH HwfP Hor strict).
+  rewrite (find_comp_unlimited enum T strict H P HT). split.
+  - exact (comp_unl_nodup enum H P HwfH HwfP Hor strict).
+  - exact (comp_unl_spec enum H P HwfH HwfP Hor strict).
 Qed.
 
 (** fallback strategy, no limits *)
@@ -160,6 +162,12 @@ Qed.
 Example ex_comp_value :
   ex_comp = [[(10, 1); (11, 5)]; [(10, 2); (11, 5)]; [(10, 3); (11, 5)]]%N /\ length ex_all = 4.
 Proof. split; vm_compute; reflexivity. Qed.
+
+Example ex_comp_nodup : NoDupA (@Permutation (N * N)) ex_comp.
+Proof.
+  replace ex_comp with (comp_unl (monos_on Hx Px) true Hx Px) by (vm_compute; reflexivity).
+  exact (comp_unl_nodup (monos_on Hx Px) Hx Px Hx_wf Px_wf (monos_on_oracle_ok Hx Px Hx_wf Px_wf) true).
+Qed.
 
 Example ex_comp_spec :
   (forall m, In m ex_comp -> is_mono Hx Px m /\ separating Hx Px m) /\
